@@ -35,6 +35,14 @@ unsafe fn cstr(p: *const u8) -> Option<String> {
 
 /// Parses `input` (UTF-8) into events; Err carries libyaml's problem text.
 pub fn events(input: &[u8]) -> Result<Vec<Ev>, String> {
+	match events_partial(input) {
+		(ev, None) => Ok(ev),
+		(_, Some(e)) => Err(e),
+	}
+}
+
+/// Like `events`, but keeps the events seen before an error.
+pub fn events_partial(input: &[u8]) -> (Vec<Ev>, Option<String>) {
 	let mut out = vec![];
 	// SAFETY: plain use of the libyaml API on a string input that outlives the parser.
 	unsafe {
@@ -51,7 +59,7 @@ pub fn events(input: &[u8]) -> Result<Vec<Ev>, String> {
 				let problem = (&(*p)).problem;
 				let msg = cstr(problem.cast::<u8>()).unwrap_or_else(|| "unknown".into());
 				yaml_parser_delete(p);
-				return Err(msg);
+				return (out, Some(msg));
 			}
 			let e = ev.assume_init_mut();
 			let mut done = false;
@@ -100,7 +108,28 @@ pub fn events(input: &[u8]) -> Result<Vec<Ev>, String> {
 		}
 		yaml_parser_delete(p);
 	}
-	Ok(out)
+	(out, None)
+}
+
+/// True when a YAML reader sees a first document that is a collection and is followed by a clean
+/// document boundary (the next document's start or the end of the stream).
+pub fn first_document_is_clean_collection(input: &[u8]) -> bool {
+	if std::str::from_utf8(input).is_err() {
+		return false;
+	}
+	let (ev, _) = events_partial(input);
+	let mut i = 0;
+	while i < ev.len() && !matches!(ev[i], Ev::DocStart { .. }) {
+		i += 1;
+	}
+	if i + 1 >= ev.len() || !matches!(ev[i + 1], Ev::SeqStart { .. } | Ev::MapStart { .. }) {
+		return false;
+	}
+	let mut j = i + 1;
+	while j < ev.len() && !matches!(ev[j], Ev::DocEnd { .. }) {
+		j += 1;
+	}
+	j + 1 < ev.len() && matches!(ev[j + 1], Ev::DocStart { .. } | Ev::StreamEnd)
 }
 
 /// Number of documents libyaml sees, or None when the stream is malformed.
